@@ -1,6 +1,6 @@
 (* C17Proof.v — statements of the C17 theorems (closed in props/C17.v) and
    their derivation from ParserProofs.v / LexProofs.v. *)
-From Grule Require Import Base Syntax Lexer Parser GrlPrint LexProofs ParserProofs.
+From Grule Require Import Base Syntax Lexer Parser GrlPrint Snapshot LexProofs ParserProofs ParserWf.
 Open Scope Z_scope.
 
 (* "grammatical": the text lexes and parses (model of grulev3.g4) into the rule
@@ -27,8 +27,8 @@ Proof. exact parse_print_roundtrip. Qed.
 
 (* (2) acceptance at knowledge-base level (builder model): accepted exactly when
    grammatical with names not yet loaded; then every rule of the text is in the
-   knowledge base under its name with its description, salience, condition and
-   actions, and what was loaded before is still there *)
+   knowledge base under its name with its declared description (the unquoted
+   text), salience, condition and actions, and what was loaded before is still there *)
 Definition C17_accept_statement : Prop :=
   forall kb text,
     (forall kb', build kb text = Ok kb' <->
@@ -49,7 +49,8 @@ Qed.
 (* (3) any other text yields an error — never a panic, never silent acceptance —
    and leaves the knowledge base of the model as it was; an accepted text has,
    for every rule, a non-empty action list, a salience in the 32-bit range, and
-   distinct names; a name already loaded is rejected *)
+   distinct names; a name already loaded is rejected; so is a description with a
+   malformed escape (the description is unquoted like every string literal) *)
 Definition C17_reject_statement : Prop :=
   (forall kb text, (forall kb', build kb text <> Ok kb') -> build kb text = Err /\ kb_after kb text = kb) /\
   (forall kb text, build kb text <> Panic) /\
@@ -60,7 +61,8 @@ Definition C17_reject_statement : Prop :=
   (forall f n d sal rest,
      prule (pexpr f) (TRule :: TName n :: TStr true d :: TSalience :: TInt sal :: TLBrace :: TWhen :: TThen :: rest) = None) /\
   (forall c s, In (code c) [35; 36; 58; 63; 64; 92; 94; 95; 96; 126] -> lex_one c s = None) /\
-  (forall s n, ident_token s = TName n -> keyword_of s = None /\ n = s).
+  (forall s n, ident_token s = TName n -> keyword_of s = None /\ n = s) /\
+  (forall pe n dq raw rest, unquote dq raw = None -> prule pe (TRule :: TName n :: TStr dq raw :: rest) = None).
 
 Lemma C17_reject_proved : C17_reject_statement.
 Proof.
@@ -75,6 +77,7 @@ Proof.
   - apply lex_one_illegal.
   - apply (ident_token_name s n H).
   - apply (ident_token_name s n H).
+  - apply reject_bad_description.
 Qed.
 
 (* (4) string constants: the escaping of strconv.Quote (bytes) is undone exactly
@@ -104,3 +107,16 @@ Definition C17_roundtrip_spacing_partial_statement : Prop :=
 
 Lemma C17_roundtrip_spacing_partial_proved : C17_roundtrip_spacing_partial_statement.
 Proof. exact parse_print_any_spacing. Qed.
+
+(* (6) link to C07: every tree of an accepted text lies in the domain on which
+   snapshots are injective (names free of the snapshot delimiters, 64-bit float
+   patterns: ParserWf.wf_rule_s, i.e. SnapInj.wf_expr / wf_var / wf_atom on the
+   condition and every action); hence two accepted rules whose conditions have
+   equal snapshots have equal condition trees *)
+Definition C17_snapshot_link_statement : Prop :=
+  (forall text rs, grammatical text rs -> Forall wf_rule_s rs) /\
+  (forall text1 text2 rs1 rs2 r1 r2, grammatical text1 rs1 -> grammatical text2 rs2 -> In r1 rs1 -> In r2 rs2 ->
+     expr_snapshot (rwhen r1) = expr_snapshot (rwhen r2) -> rwhen r1 = rwhen r2).
+
+Lemma C17_snapshot_link_proved : C17_snapshot_link_statement.
+Proof. split; [exact parse_grl_wf|exact accepted_conditions_snapshot_inj]. Qed.
